@@ -768,7 +768,9 @@ def units(tier):
                        dict(section="UnpackInfo", nbytes=n, prefix="0b01000111"), 3000))
     # FilesInfo: two files, one property id fixed, its size and content (and what follows) free
     for pre, ns in (("020e", (3, 4)), ("020e01c00f", (3, 4)), ("0214", (5, 6)), ("0215", (5,) if tier == "quick" else (5, 6)),
-                    ("0218", (5, 6)), ("0219", (3, 4)), ("02", (3,))):
+                    ("0218", (5, 6)), ("0219", (3, 4)), ("02", (3,))) + (
+            # nine files: bit vectors that span two bytes
+            (("090e", (4,)), ("090e02ff800f", (4,))) if tier == "thorough" else ()):
         for n in ns:
             us.append(Unit("B.section_differential[FilesInfo,%s + %d bytes]" % (pre, n), M, "section_differential",
                            dict(section="FilesInfo", nbytes=n, prefix=pre), 3000))
